@@ -207,6 +207,13 @@ func (n *LocalNode) GetSuccessors() ([]chord.VNode, error) {
 		return nil, err
 	}
 
+	if len(n.getSuccessors()) == 0 {
+		// still joining: no successor is known yet. An empty list must not be handed out: a
+		// stabilizing neighbour would adopt us with a one-entry successor list and route
+		// lookups (joins, KV requests) into a node that cannot answer them
+		return nil, chord.ErrNodeNotStarted
+	}
+
 	return n.getSuccessors(), nil
 }
 
